@@ -19,7 +19,7 @@ What is NOT decided: that the table computed at limit 6/7 is the table at the pr
 uses `limit` only additively (and through `limit % 2`), both parities are evaluated, and the classes above are all a
 look-back of bounded width plus a backslash run can distinguish - but that transfer is an argument, not a check.
 """
-import ast
+import ast, re
 
 from ..core import Rule, AnalysisError
 from .pC10 import Unfoldable, ENCODING, Closure, Env
@@ -29,6 +29,7 @@ from .pC11 import _folder, _escaper, c_read, CReadError
 # the separator" they make the backslash/other abstraction of the text exact
 _NEUTRAL_METHODS = {'find', 'rfind', 'index', 'rindex', 'count', 'startswith', 'endswith', 'append', 'extend', 'join', 'insert'}
 _NEUTRAL_CALLS = {'len', 'range', 'min', 'max', 'divmod', 'int', 'list', 'reversed', 'enumerate'}
+SEPARATOR = re.compile(r'"[ \t\n]*"')
 
 
 def token_shapes(ctx):
@@ -78,7 +79,10 @@ def abstraction_is_exact(fdef):
             else:
                 return 'it makes a computed call'
     doc = ast.get_docstring(fdef)
-    other = sorted(c for c in consts if c not in ('\\', '""', '') and c != doc and set(c) != {'\\'})
+    # the separator put between the pieces: any `"<white space>"` (adjacent string literals may be separated by white space)
+    seps = {n.func.value.value for n in ast.walk(fdef) if isinstance(n, ast.Call) and isinstance(n.func, ast.Attribute) and n.func.attr == 'join'
+            and isinstance(n.func.value, ast.Constant) and isinstance(n.func.value.value, str) and SEPARATOR.fullmatch(n.func.value.value)}
+    other = sorted(c for c in consts if c not in ('\\', '""', '') and c not in seps and c != doc and set(c) != {'\\'})
     if other:
         return 'it compares the text with %r' % other[0]
     return None
@@ -139,7 +143,7 @@ def _cut_table(folder, fn, tokens, limits, prefixed_limit, report, longest, raw)
                 continue
             if got != want:
                 report('inside-escape', '%s, which a C compiler reads as %r instead of %r: the `""` separator was put inside an escape sequence' % (what, got, want))
-            elif out.replace('""', '') != s:
+            elif SEPARATOR.sub('', out) != SEPARATOR.sub('', s):
                 report('text', '%s changes the text beyond inserting `""`' % what)
     return n
 
@@ -212,4 +216,721 @@ def rule_cut(ctx):
     pc = Closure(f, ast.parse(_PC_SOURCE).body[0], Env({}, None, ENCODING))
     cut_table(f, pc, tokens, (6,), None, lambda kind, msg: hits.append(kind))
     r.positive_control('inside-escape' in hits, 'a splitter that only looks back two characters cuts \\ooo in two')
+    return r
+
+
+# ==================================================================================================================
+# C11-ARR — the character-array form of long string constants (Code._write_cstring_const, MSVC >= 64K)
+# ==================================================================================================================
+"""`_split_characters` is a regular expression used through .findall: at each position the FIRST alternative that matches
+wins (ordered choice; the group spans the whole pattern, nothing follows it, so no backtracking into a later alternative
+can occur) and a position where no alternative matches is silently skipped.  After expansion of counted repeats every
+alternative is a fixed sequence of character predicates, so the decision at a position depends on at most `m` characters
+(m = longest alternative).  The escaped text is a sequence of C escape tokens (C11-ESC); by induction over the text the
+tokenisation equals the C tokenisation iff at the start of every token T, followed by ANY continuation of up to m-1
+characters (or the end of the text), the first matching alternative has exactly the length of T.  Tokens: every token the
+reference C lexer finds in the escapes of all 256 bytes and of all pairs of representative bytes (multi-character
+specials such as ??).  Continuations: all strings of length < m over one representative of every character class the
+pattern can distinguish (its literals, the end points of its ranges and their neighbours) — a complete finite domain.
+Each token is then read as the character constant 'T' by the reference reader and must have the value of its byte.
+Nothing is executed: the pattern is a constant of the source, parsed with CPython's re._parser, and matched by the
+matcher below."""
+
+CODE = 'Cython/Compiler/Code.py'
+_OCT = '01234567'
+_HEX = '0123456789abcdefABCDEF'
+
+
+def c_lex(text):
+    """reference C tokenisation of a literal body -> [(token text, value)] (raises CReadError)."""
+    out, i = [], 0
+    while i < len(text):
+        if text[i] != '\\':
+            out.append((text[i], ord(text[i])))
+            i += 1
+            continue
+        if i + 1 >= len(text):
+            raise CReadError('backslash at the end')
+        e = text[i + 1]
+        if e in _OCT:
+            j = i + 1
+            while j < len(text) and j < i + 4 and text[j] in _OCT:
+                j += 1
+        elif e == 'x':
+            j = i + 2
+            while j < len(text) and text[j] in _HEX:
+                j += 1
+        else:
+            j = i + 2
+        tok = text[i:j]
+        out.append((tok, c_read(tok, adjacent=False, portable=False)[0]))
+        i = j
+    return out
+
+
+def _split_pattern(ctx):
+    """(pattern text, dotall, line) of the regular expression behind Code._split_characters."""
+    for n in ctx.parse(CODE).body:
+        tg = n.targets if isinstance(n, ast.Assign) else [n.target] if isinstance(n, ast.AnnAssign) else []
+        if not any(isinstance(t, ast.Name) and t.id == '_split_characters' for t in tg) or n.value is None:
+            continue
+        hits = [a for a in ast.walk(n.value) if isinstance(a, ast.Attribute) and a.attr in ('findall', 'finditer', 'split', 'match', 'search', 'fullmatch', 'sub')
+                and isinstance(a.value, ast.Call) and isinstance(a.value.func, ast.Attribute) and a.value.func.attr == 'compile']
+        if len(hits) != 1 or hits[0].attr != 'findall':
+            raise AnalysisError('C11-ARR: Code._split_characters is no longer `re.compile(<pattern>).findall`')
+        call = hits[0].value
+        if not call.args or not isinstance(call.args[0], ast.Constant) or not isinstance(call.args[0].value, str):
+            raise AnalysisError('C11-ARR: the pattern of Code._split_characters is not a string constant')
+        dotall = False
+        for extra in call.args[1:] + [k.value for k in call.keywords]:
+            for f in ast.walk(extra):
+                if isinstance(f, ast.Attribute):
+                    if f.attr in ('DOTALL', 'S'):
+                        dotall = True
+                    elif f.attr not in ('re', 'UNICODE', 'U', 'ASCII', 'A'):
+                        raise AnalysisError('C11-ARR: regular expression flag %s is outside the model' % f.attr)
+        return call.args[0].value, dotall, n.lineno
+    raise AnalysisError('C11-ARR: Code._split_characters vanished')
+
+
+class _Pred:
+    """one character predicate of the expanded pattern"""
+    def __init__(self, kind, arg=None):
+        self.kind, self.arg = kind, arg
+
+    def ok(self, ch, dotall):
+        k = self.kind
+        if k == 'lit':
+            return ch == self.arg
+        if k == 'notlit':
+            return ch != self.arg
+        if k == 'any':
+            return dotall or ch != '\n'
+        neg, items = self.arg
+        hit = False
+        for ik, iv in items:
+            if ik == 'lit' and ch == iv:
+                hit = True
+            elif ik == 'range' and iv[0] <= ch <= iv[1]:
+                hit = True
+            elif ik == 'cat':
+                base = {'digit': ch in '0123456789', 'word': ch.isalnum() or ch == '_', 'space': ch in ' \t\n\r\f\v'}[iv[0]]
+                hit = hit or (base != iv[1])
+        return hit != neg
+
+    def marks(self):
+        if self.kind in ('lit', 'notlit'):
+            return {self.arg}
+        if self.kind == 'set':
+            out = set()
+            for ik, iv in self.arg[1]:
+                if ik == 'lit':
+                    out.add(iv)
+                elif ik == 'range':
+                    out |= {iv[0], iv[1], chr(max(0, ord(iv[0]) - 1)), chr(ord(iv[1]) + 1)}
+                else:
+                    out |= set('09a_ ')
+            return out
+        return set()
+
+
+def expand_pattern(pattern):
+    """ordered list of alternatives, each a list of _Pred (counted repeats unrolled, longest first for greedy ones)."""
+    import re._parser as sp
+    import re._constants as sc
+    try:
+        parsed = sp.parse(pattern)
+    except Exception as x:
+        raise AnalysisError('C11-ARR: the pattern %r does not parse: %s' % (pattern, x))
+    groups = parsed.state.groups - 1
+    top = list(parsed)
+    if groups > 1 or (groups == 1 and not (len(top) == 1 and top[0][0] is sc.SUBPATTERN)):
+        raise AnalysisError('C11-ARR: the pattern %r has %d groups / a group that does not span the whole pattern: findall() would not return the matched text' % (pattern, groups))
+    cats = {sc.CATEGORY_DIGIT: ('digit', False), sc.CATEGORY_NOT_DIGIT: ('digit', True), sc.CATEGORY_WORD: ('word', False), sc.CATEGORY_NOT_WORD: ('word', True),
+            sc.CATEGORY_SPACE: ('space', False), sc.CATEGORY_NOT_SPACE: ('space', True)}
+
+    def seq(items):
+        alts = [[]]
+        for op, av in items:
+            alts = [a + b for a in alts for b in one(op, av)]
+            if len(alts) > 4000:
+                raise AnalysisError('C11-ARR: pattern too large to expand')
+        return alts
+
+    def one(op, av):
+        if op is sc.LITERAL:
+            return [[_Pred('lit', chr(av))]]
+        if op is sc.NOT_LITERAL:
+            return [[_Pred('notlit', chr(av))]]
+        if op is sc.ANY:
+            return [[_Pred('any')]]
+        if op is sc.IN:
+            neg, items = False, []
+            for ik, iv in av:
+                if ik is sc.NEGATE:
+                    neg = True
+                elif ik is sc.LITERAL:
+                    items.append(('lit', chr(iv)))
+                elif ik is sc.RANGE:
+                    items.append(('range', (chr(iv[0]), chr(iv[1]))))
+                elif ik is sc.CATEGORY and iv in cats:
+                    items.append(('cat', cats[iv]))
+                else:
+                    raise AnalysisError('C11-ARR: character class item %s outside the model' % (ik,))
+            return [[_Pred('set', (neg, items))]]
+        if op is sc.SUBPATTERN:
+            return seq(av[3])
+        if op is sc.BRANCH:
+            out = []
+            for alt in av[1]:
+                out += seq(alt)
+            return out
+        if op in (sc.MAX_REPEAT, sc.MIN_REPEAT):
+            lo, hi, sub = av
+            if hi is sc.MAXREPEAT or hi > 8:
+                raise AnalysisError('C11-ARR: unbounded repetition in the pattern of _split_characters is outside the model')
+            inner = seq(sub)
+            counts = range(hi, lo - 1, -1) if op is sc.MAX_REPEAT else range(lo, hi + 1)
+            out = []
+            for n in counts:
+                part = [[]]
+                for _ in range(n):
+                    part = [a + b for a in part for b in inner]
+                out += part
+            return out
+        raise AnalysisError('C11-ARR: regular expression construct %s is outside the model' % (op,))
+    return seq(top)
+
+
+def first_match(alts, text, dotall):
+    """length of the first alternative matching at the start of text, or None."""
+    for alt in alts:
+        if len(alt) <= len(text) and all(p.ok(text[i], dotall) for i, p in enumerate(alt)):
+            return len(alt)
+    return None
+
+
+def tokenizer_problems(pattern, dotall, tokens):
+    """tokens: {token text: value}.  -> [(kind, token, message)], number of (token, continuation) cases, number of token classes"""
+    alts = expand_pattern(pattern)
+    if not alts or any(not a for a in alts):
+        raise AnalysisError('C11-ARR: the pattern %r can match the empty string' % pattern)
+    m = max(len(a) for a in alts)
+    preds = [p for a in alts for p in a]
+    marks = set('\\\'"?0789aAfFxn ')
+    for p in preds:
+        marks |= p.marks()
+    marks = sorted(c for c in marks if 32 <= ord(c) <= 126)
+
+    def sig(ch):
+        return tuple(p.ok(ch, dotall) for p in preds)
+    reps = {}
+    for c in marks:
+        reps.setdefault(sig(c), c)
+    alphabet = sorted(reps.values())
+    follows = ['']
+    layer = ['']
+    for _ in range(m - 1):
+        layer = [f + c for f in layer for c in alphabet]
+        follows += layer
+    problems, cases, seen_classes = [], 0, {}
+    for tok in sorted(tokens):
+        cls = tuple(sig(c) for c in tok)
+        if cls in seen_classes:
+            continue
+        seen_classes[cls] = tok
+        for fo in follows:
+            cases += 1
+            got = first_match(alts, tok + fo, dotall)
+            if got == len(tok):
+                continue
+            if got is None:
+                problems.append(('dropped', tok, 'no alternative of %r matches at the start of the token %r (followed by %r): findall() skips the character, the byte is lost' % (pattern, tok, fo)))
+            else:
+                problems.append(('cut', tok, 'at the start of the token %r followed by %r the pattern %r matches %r: the escape token is cut %s, the array elements denote other bytes'
+                                 % (tok, fo, pattern, (tok + fo)[:got], 'short' if got < len(tok) else 'together with what follows')))
+            break
+    return problems, cases, len(seen_classes)
+
+
+def escaper_tokens(ctx):
+    """{token text: byte value} over the escapes of all single bytes and all pairs of representative bytes."""
+    from .pC11 import _REP
+    esc = _escaper(ctx)
+    toks = {}
+    inputs = [bytes([b]) for b in range(256)] + [bytes([a, b]) for a in _REP for b in _REP]
+    for s in inputs:
+        try:
+            e = esc(s)
+            if c_read(e) != s:
+                continue        # reported by C11-ESC
+            for t, v in c_lex(e):
+                toks.setdefault(t, v)
+        except AnalysisError:
+            raise
+        except Exception:
+            continue            # reported by C11-ESC
+    return toks
+
+
+def shape_of(tok):
+    return ''.join('B' if c == '\\' else 'x' for c in tok)
+
+
+def rule_char_array(ctx):
+    r = Rule('C11-ARR', "character-array form of long constants: Code._split_characters (ordered-choice regular expression, expanded and matched by the checker) cuts the escaped "
+             "text exactly at the C token boundaries for every escaper token followed by any continuation, each token is a valid character constant of its byte, and "
+             "the tokenised text is the escaped text, not the already split literal", floor=230)
+    pattern, dotall, line = _split_pattern(ctx)
+    toks = escaper_tokens(ctx)
+    if len(toks) < 200:
+        raise AnalysisError('C11-ARR: only %d distinct tokens in the escapes of all bytes' % len(toks))
+    problems, cases, ncls = tokenizer_problems(pattern, dotall, toks)
+    r.info('pattern %r: %d token classes x continuations = %d cases' % (pattern, ncls, cases))
+    seen = set()
+    for kind, tok, msg in problems:
+        key = '_split_characters:%s:%s' % (shape_of(tok), kind)
+        if key not in seen:
+            seen.add(key)
+            r.violate(key, CODE, line, msg)
+    for tok, val in sorted(toks.items()):
+        r.inst('token:%r' % tok, sample="%r -> '%s'" % (bytes([val]), tok), nontrivial=len(tok) > 1 or tok in '\'"?')
+        key = "char-array:%s" % ("single-quote" if val == 39 else shape_of(tok))
+        try:
+            got = c_read(tok, quote="'", adjacent=False, portable=False)
+        except CReadError as x:
+            if key + ':unreadable' not in seen:
+                seen.add(key + ':unreadable')
+                r.violate(key + ':unreadable', CODE, line, "byte %d is written as the array element '%s', which is not a valid C character constant (%s)" % (val, tok, x))
+            continue
+        if got != bytes([val]) and key + ':value' not in seen:
+            seen.add(key + ':value')
+            r.violate(key + ':value', CODE, line, "byte %d is written as the array element '%s', which C reads as %r" % (val, tok, got))
+    # what is tokenised must be the escaped text itself
+    sites = 0
+    for fn in [n for n in ast.walk(ctx.parse(CODE)) if isinstance(n, (ast.FunctionDef, ast.AsyncFunctionDef))]:
+        for n in ast.walk(fn):
+            if isinstance(n, ast.Call) and isinstance(n.func, ast.Name) and n.func.id == '_split_characters' and n.args:
+                sites += 1
+                key = 'Code.%s:_split_characters-arg' % fn.name
+                o = Origins(ctx).origin(n.args[0], fn, CODE)
+                r.inst(key, sample='%s: _split_characters(%s) <- %s' % (fn.name, ast.unparse(n.args[0])[:40], sorted(o)))
+                why = bad_origin(o, 'tokens-arg')
+                if why:
+                    r.violate(key, CODE, n.lineno, 'Code.%s tokenises %s for the character-array form, %s' % (fn.name, ast.unparse(n.args[0])[:60], why))
+    if not sites:
+        raise AnalysisError('C11-ARR: no call of _split_characters found in Code.py')
+    pc_p, pc_c, _ = tokenizer_problems(r'(\\.|.)', True, {'\\001': 1, 'a': 97, '\\n': 10})
+    ok_p, _, _ = tokenizer_problems(r'(\\[0-7]{3}|\\.|.)', True, {'\\001': 1, 'a': 97, '\\n': 10, '\\\\': 92})
+    r.positive_control(any(k == 'cut' for k, _, _ in pc_p) and not ok_p, 'a tokenizer without the octal alternative cuts \\001 short; the counted spelling [0-7]{3} is accepted')
+    return r
+
+
+# ==================================================================================================================
+# C11-SINK — what is written between quotes comes from the escaper (def-use over locals, parameters, attributes)
+# ==================================================================================================================
+FAMILY = {'escape_byte_string', 'split_string_literal', 'escape_char', '_split_characters', '_write_cstring_const', '_write_escaped_cstring_const',
+          'as_c_string_literal'}
+WRITER_CALLS = {'split_string_literal', '_split_characters'}
+ESCAPERS = {'escape_byte_string', 'escape_char'}
+PASS_THROUGH_METHODS = {'decode', 'encode', 'strip', 'lstrip', 'rstrip'}
+WRAPPERS = {'sorted', 'reversed', 'list', 'tuple', 'str', 'iter'}
+
+
+class Origins:
+    """Where does the text of an expression come from?  -> set of tags:
+    'esc' (escape_byte_string), 'char' (escape_char), 'split' (went through split_string_literal), 'tokens' (went through _split_characters),
+    'join-const' (joined with a constant escape separator: judged by C11-SRC), 'const', 'raw:<why>' (anything else)."""
+
+    def __init__(self, ctx):
+        self.ctx = ctx
+        self.busy = set()
+
+    def files(self):
+        import os
+        d = 'Cython/Compiler'
+        return sorted(d + '/' + f for f in os.listdir(self.ctx.path(d)) if f.endswith('.py'))
+
+    def functions(self, rel):
+        key = 'sC11.fns:' + rel
+        def build():
+            out = []
+            tree = self.ctx.parse(rel)
+            for n in ast.walk(tree):
+                if isinstance(n, ast.ClassDef):
+                    for m in n.body:
+                        if isinstance(m, (ast.FunctionDef, ast.AsyncFunctionDef)):
+                            out.append((n.name, m))
+            methods = {id(m) for _, m in out}
+            for n in ast.walk(tree):
+                if isinstance(n, (ast.FunctionDef, ast.AsyncFunctionDef)) and id(n) not in methods:
+                    out.append((None, n))
+            return out
+        return self.ctx.memo(key, build)
+
+    def index(self, rel):
+        """per file: ({callee name: [(caller fn, call)]}, {attribute: [(fn, stored value)]})"""
+        def build():
+            calls, stores = {}, {}
+            for cname, fn in self.functions(rel):
+                for n in ast.walk(fn):
+                    if isinstance(n, ast.Call):
+                        f = n.func
+                        nm = f.attr if isinstance(f, ast.Attribute) else f.id if isinstance(f, ast.Name) else None
+                        if nm:
+                            calls.setdefault(nm, []).append((fn, n))
+                    elif isinstance(n, ast.Assign):
+                        for t in n.targets:
+                            if isinstance(t, ast.Attribute):
+                                stores.setdefault(t.attr, []).append((fn, n.value))
+            return calls, stores
+        return self.ctx.memo('sC11.index:' + rel, build)
+
+    @staticmethod
+    def callee(call, fn):
+        f = call.func
+        name = f.attr if isinstance(f, ast.Attribute) else f.id if isinstance(f, ast.Name) else None
+        if isinstance(f, ast.Name) and fn is not None:
+            # alias: escape = StringEncoding.escape_byte_string
+            for n in ast.walk(fn):
+                if isinstance(n, ast.Assign) and any(isinstance(t, ast.Name) and t.id == f.id for t in n.targets):
+                    v = n.value
+                    vn = v.attr if isinstance(v, ast.Attribute) else v.id if isinstance(v, ast.Name) else None
+                    if vn in FAMILY:
+                        return vn
+        return name
+
+    def origin(self, e, fn, rel, depth=0):
+        self.work = getattr(self, 'work', 0) + 1
+        if self.work > 20000:
+            raise AnalysisError('C11-SINK: the def-use search for the origin of a quoted text does not converge')
+        if depth > 8:
+            return {'raw:flow too deep to follow'}
+        rec = lambda x, f=fn, r=rel: self.origin(x, f, r, depth + 1)
+        if isinstance(e, ast.Constant):
+            return {'const'}
+        if isinstance(e, ast.IfExp):
+            return rec(e.body) | rec(e.orelse)
+        if isinstance(e, ast.JoinedStr) or (isinstance(e, ast.BinOp) and isinstance(e.op, (ast.Mod, ast.Add))):
+            out = set()
+            for sub in (e.values if isinstance(e, ast.JoinedStr) else [e.left, e.right]):
+                if isinstance(sub, ast.FormattedValue):
+                    sub = sub.value
+                if isinstance(sub, ast.Tuple):
+                    for x in sub.elts:
+                        out |= rec(x)
+                else:
+                    out |= rec(sub)
+            return out
+        if isinstance(e, ast.Call):
+            name = self.callee(e, fn)
+            if name == 'escape_byte_string':
+                return {'esc'}
+            if name == 'escape_char':
+                return {'char'}
+            if name == 'split_string_literal' and e.args:
+                return {'split'} | rec(e.args[0])
+            if name == '_split_characters' and e.args:
+                return {'tokens'} | rec(e.args[0])
+            if name == 'as_c_string_literal':
+                return {'esc', 'split', 'quoted'}
+            if name == 'join' and isinstance(e.func, ast.Attribute) and isinstance(e.func.value, ast.Constant):
+                sep = e.func.value.value
+                if (b'\\' in sep) if isinstance(sep, bytes) else ('\\' in sep):
+                    return {'join-const'}
+                return rec(e.args[0]) if e.args else {'const'}
+            if isinstance(e.func, ast.Attribute) and name in PASS_THROUGH_METHODS:
+                return rec(e.func.value)
+            if isinstance(e.func, ast.Name) and name in WRAPPERS and e.args:
+                return rec(e.args[0])
+            # a helper defined in the same file: the origins of what it returns
+            target = self.resolve_function(name, e, rel)
+            if target is not None:
+                key = ('ret', rel, target.name)
+                if key in self.busy:
+                    return set()
+                self.busy.add(key)
+                try:
+                    out = set()
+                    for n in ast.walk(target):
+                        if isinstance(n, ast.Return) and n.value is not None:
+                            out |= self.origin(n.value, target, rel, depth + 1)
+                    return out or {'raw:%s() returns nothing' % name}
+                finally:
+                    self.busy.discard(key)
+            return {'raw:the result of %s()' % (name or 'a computed call')}
+        if isinstance(e, (ast.ListComp, ast.GeneratorExp, ast.SetComp)):
+            return rec(e.elt)
+        if isinstance(e, (ast.List, ast.Tuple)):
+            out = set()
+            for x in e.elts:
+                out |= rec(x)
+            return out or {'const'}
+        if isinstance(e, ast.Attribute):
+            return self.attribute_origin(e.attr, depth)
+        if isinstance(e, ast.Name):
+            return self.name_origin(e.id, e, fn, rel, depth)
+        return {'raw:the expression %s' % ast.unparse(e)[:40]}
+
+    def resolve_function(self, name, call, rel):
+        if not name or name in FAMILY:
+            return None
+        cands = [m for c, m in self.functions(rel) if m.name == name]
+        return cands[0] if len(cands) == 1 else None
+
+    def attribute_origin(self, attr, depth):
+        key = ('attr', attr)
+        if key in self.busy:
+            return set()
+        self.busy.add(key)
+        try:
+            out, found = set(), False
+            for rel in self.files():
+                if ('.%s' % attr) not in self.ctx.read(rel):
+                    continue
+                for fn, value in self.index(rel)[1].get(attr, ()):
+                    found = True
+                    out |= self.origin(value, fn, rel, depth + 1)
+            return out if found else {'raw:the attribute .%s (never assigned in the compiler)' % attr}
+        finally:
+            self.busy.discard(key)
+
+    def name_origin(self, ident, node, fn, rel, depth):
+        if fn is None:
+            return {'raw:the name %s' % ident}
+        out, found = set(), False
+        for n in ast.walk(fn):
+            # comprehension variable
+            if isinstance(n, ast.comprehension) and self._binds(n.target, ident) is not None:
+                found = True
+                out |= self.element_origin(n.iter, self._binds(n.target, ident), fn, rel, depth)
+            elif isinstance(n, (ast.For, ast.AsyncFor)) and self._binds(n.target, ident) is not None:
+                found = True
+                out |= self.element_origin(n.iter, self._binds(n.target, ident), fn, rel, depth)
+            elif isinstance(n, ast.Assign):
+                for t in n.targets:
+                    if isinstance(t, ast.Name) and t.id == ident:
+                        found = True
+                        out |= self.origin(n.value, fn, rel, depth + 1)
+                    elif isinstance(t, ast.Tuple) and self._binds(t, ident) is not None:
+                        found = True
+                        k = self._binds(t, ident)
+                        if isinstance(n.value, ast.Tuple) and k != () and k[0] < len(n.value.elts):
+                            out |= self.origin(n.value.elts[k[0]], fn, rel, depth + 1)
+                        else:
+                            out.add('raw:%s unpacked from %s' % (ident, ast.unparse(n.value)[:30]))
+            elif isinstance(n, ast.AnnAssign) and isinstance(n.target, ast.Name) and n.target.id == ident and n.value is not None:
+                found = True
+                out |= self.origin(n.value, fn, rel, depth + 1)
+            elif isinstance(n, ast.AugAssign) and isinstance(n.target, ast.Name) and n.target.id == ident:
+                found = True
+                out |= self.origin(n.value, fn, rel, depth + 1)
+        if found:
+            return out
+        a = fn.args
+        params = [p.arg for p in a.posonlyargs + a.args + a.kwonlyargs]
+        if ident in params:
+            return self.param_origin(fn, ident, rel, depth)
+        return {'raw:the name %s' % ident}
+
+    @staticmethod
+    def _binds(target, ident):
+        """() if target is the name itself, (k,) if it is element k of a tuple target, None otherwise"""
+        if isinstance(target, ast.Name):
+            return () if target.id == ident else None
+        if isinstance(target, (ast.Tuple, ast.List)):
+            for k, t in enumerate(target.elts):
+                if isinstance(t, ast.Name) and t.id == ident:
+                    return (k,)
+        return None
+
+    def element_origin(self, it, pos, fn, rel, depth):
+        while isinstance(it, ast.Call) and isinstance(it.func, ast.Name) and it.func.id in WRAPPERS and it.args:
+            it = it.args[0]
+
+        def pick(x):
+            if pos == ():
+                return self.origin(x, fn, rel, depth + 1)
+            if isinstance(x, ast.Tuple) and pos[0] < len(x.elts):
+                return self.origin(x.elts[pos[0]], fn, rel, depth + 1)
+            return {'raw:element %d of %s' % (pos[0], ast.unparse(x)[:30])}
+        if isinstance(it, (ast.ListComp, ast.GeneratorExp)):
+            return pick(it.elt)
+        if isinstance(it, (ast.List, ast.Tuple)):
+            out = set()
+            for x in it.elts:
+                out |= pick(x)
+            return out
+        if isinstance(it, ast.Name):
+            out, found = set(), False
+            for n in ast.walk(fn):
+                if isinstance(n, ast.Call) and isinstance(n.func, ast.Attribute) and n.func.attr in ('append', 'add') and isinstance(n.func.value, ast.Name) \
+                        and n.func.value.id == it.id and n.args:
+                    found = True
+                    out |= pick(n.args[0])
+                elif isinstance(n, (ast.Assign, ast.AnnAssign)) and n.value is not None and \
+                        any(isinstance(t, ast.Name) and t.id == it.id for t in (n.targets if isinstance(n, ast.Assign) else [n.target])):
+                    if isinstance(n.value, (ast.List, ast.Tuple)) and not n.value.elts:
+                        continue
+                    found = True
+                    if isinstance(n.value, ast.Call) and self.callee(n.value, fn) == '_split_characters':
+                        out |= self.origin(n.value, fn, rel, depth + 1)
+                    else:
+                        out |= self.element_origin(n.value, pos, fn, rel, depth + 1)
+            if found:
+                return out
+            if pos == ():
+                o = self.name_origin(it.id, it, fn, rel, depth + 1)
+                return o
+        if isinstance(it, ast.Call) and self.callee(it, fn) == '_split_characters':
+            return self.origin(it, fn, rel, depth + 1)
+        return {'raw:the elements of %s' % ast.unparse(it)[:40]}
+
+    def param_origin(self, fn, ident, rel, depth):
+        key = ('param', fn.name, ident)
+        if key in self.busy:
+            return set()
+        self.busy.add(key)
+        try:
+            a = fn.args
+            pos = [p.arg for p in a.posonlyargs + a.args]
+            is_method = bool(pos) and pos[0] in ('self', 'cls')
+            if fn.name.startswith('__') and fn.name.endswith('__'):
+                return {'raw:the parameter %s of %s (callers of special methods are not followed)' % (ident, fn.name)}
+            out, found = set(), False
+            for crel in self.files():
+                if fn.name not in self.ctx.read(crel):
+                    continue
+                for caller, n in self.index(crel)[0].get(fn.name, ()):
+                    if True:
+                        if isinstance(n.func, ast.Name) and is_method:
+                            continue
+                        args = list(n.args)
+                        plist = pos[1:] if (is_method and isinstance(n.func, ast.Attribute)) else pos
+                        val = None
+                        if ident in plist and plist.index(ident) < len(args) and not any(isinstance(x, ast.Starred) for x in args):
+                            val = args[plist.index(ident)]
+                        for k in n.keywords:
+                            if k.arg == ident:
+                                val = k.value
+                        if val is None:
+                            continue
+                        found = True
+                        out |= self.origin(val, caller, crel, depth + 1)
+            return out if found else {'raw:the parameter %s of %s (no caller found)' % (ident, fn.name)}
+        finally:
+            self.busy.discard(key)
+
+
+def bad_origin(tags, sink):
+    """None if text with these origins may be written into the sink, else the reason."""
+    raw = sorted(t[4:] for t in tags if t.startswith('raw:'))
+    if raw:
+        return 'but %s is not the result of %s' % (raw[0], 'escape_char / escape_byte_string' if sink == "'" else 'escape_byte_string')
+    if sink == '"':
+        if 'tokens' in tags:
+            return 'but it is the list of character tokens, not a literal body'
+        if 'char' in tags and 'esc' not in tags:
+            return 'but it was escaped with escape_char, which leaves a double quote unescaped'
+        if not tags & {'esc', 'join-const'}:
+            return 'but nothing on its way escapes it (constant text only)' if tags - {'const'} else None
+        return None
+    if sink == "'":
+        if 'split' in tags:
+            return 'but it went through split_string_literal (the `""` separators are not character constants)'
+        if not tags & {'esc', 'char'}:
+            return None if tags <= {'const'} else 'but nothing on its way escapes it'
+        return None
+    if sink == 'tokens-arg':
+        if 'split' in tags:
+            return 'but that text went through split_string_literal: every `""` separator becomes two \'"\' array elements (two extra bytes, and the closing quote of each is unbalanced)'
+        if 'esc' not in tags:
+            return 'but it does not come from escape_byte_string'
+        return None
+    return None
+
+
+def quoted_placeholders(text, ph):
+    """(quote, placeholder expr) for each placeholder that sits directly between two equal quote characters."""
+    from .iface import PLACEHOLDER
+    out, k = [], 0
+    for i, ch in enumerate(text):
+        if ch != PLACEHOLDER:
+            continue
+        e = ph[k] if k < len(ph) else None
+        k += 1
+        if 0 < i < len(text) - 1 and text[i - 1] == text[i + 1] and text[i - 1] in '"\'' and e is not None:
+            if i >= 2 and text[i - 2] == '\\':
+                continue
+            out.append((text[i - 1], e))
+    return out
+
+
+def rule_sinks(ctx):
+    from .iface import str_template
+    r = Rule('C11-SINK', 'every text written between quotes by a function of the escaping family (and by the result code of constant nodes) is derived from '
+             'escape_byte_string / escape_char on every def-use path: through locals, parameters (all callers), object attributes (all stores), list elements and helper returns', floor=8)
+    O = Origins(ctx)
+    seen = set()
+
+    def check(rel, cname, fn, node, writer=True):
+        t = str_template(node)
+        if t is None:
+            return
+        for q, e in quoted_placeholders(*t):
+            if not writer and not any(isinstance(c, ast.Call) and Origins.callee(c, fn) in ESCAPERS for c in ast.walk(e)):
+                continue        # elsewhere only texts that are visibly escaped in place are literal bodies (other quoted placeholders hold identifiers)
+            key = '%s.%s:%s%s%s' % (rel.rsplit('/', 1)[1][:-3], ('%s.' % cname if cname else '') + fn.name, q, ast.unparse(e)[:30], q)
+            if key in seen:
+                continue
+            seen.add(key)
+            tags = O.origin(e, fn, rel)
+            r.inst(key, sample='%s <- %s' % (key, sorted(tags)))
+            why = bad_origin(tags, q)
+            if why:
+                r.violate(key, rel, node.lineno, '%s%s writes %s between %s quotes into the generated C, %s: quotes, backslashes, control characters and ?? in the data '
+                          'reach the C compiler unescaped' % (('%s.' % cname if cname else ''), fn.name, ast.unparse(e)[:60], 'single' if q == "'" else 'double', why))
+
+    # result code of constant nodes
+    EXN = 'Cython/Compiler/ExprNodes.py'
+    classes = {n.name: n for n in ctx.parse(EXN).body if isinstance(n, ast.ClassDef)}
+    if 'ConstNode' not in classes:
+        raise AnalysisError('C11-SINK: ExprNodes.ConstNode vanished')
+
+    def is_const(c, depth=0):
+        return depth < 12 and any(isinstance(b, ast.Name) and (b.id == 'ConstNode' or (b.id in classes and is_const(classes[b.id], depth + 1))) for b in c.bases)
+    n_const = 0
+    for c in classes.values():
+        if not is_const(c):
+            continue
+        fn = next((m for m in c.body if isinstance(m, ast.FunctionDef) and m.name == 'calculate_result_code'), None)
+        if fn is None:
+            continue
+        for n in ast.walk(fn):
+            if isinstance(n, ast.JoinedStr) or (isinstance(n, ast.BinOp) and isinstance(n.op, ast.Mod)):
+                before = len(seen)
+                check(EXN, c.name, fn, n)
+                n_const += len(seen) - before
+    if not n_const:
+        raise AnalysisError('C11-SINK: no constant node writes a quoted literal in calculate_result_code (CharNode moved?)')
+    for rel in O.files():
+        src = ctx.read(rel)
+        if not any(f in src for f in ESCAPERS | WRITER_CALLS):
+            continue
+        for cname, fn in O.functions(rel):
+            # writer functions: they are part of the family themselves, or hand a text to the splitter / tokenizer
+            calls = {Origins.callee(n, fn) for n in ast.walk(fn) if isinstance(n, ast.Call)}
+            writer = fn.name in FAMILY or bool(calls & WRITER_CALLS)
+            for n in ast.walk(fn):
+                if isinstance(n, ast.JoinedStr) or (isinstance(n, ast.BinOp) and isinstance(n.op, ast.Mod)):
+                    check(rel, cname, fn, n, writer)
+    # positive control
+    pc = ast.parse("def sa_pc_writer_raw(code, data, name):\n    escaped = data.decode('latin-1')\n    code.putln(f'static const char {name}[] = \"{escaped}\";')\n"
+                   "def sa_pc_writer_escaped(code, data, name):\n    escaped = StringEncoding.escape_byte_string(data)\n    code.putln(f'static const char {name}[] = \"{escaped}\";')\n").body
+    res = []
+    for fn in pc:
+        js = next(n for n in ast.walk(fn) if isinstance(n, ast.JoinedStr))
+        (q, e), = quoted_placeholders(*str_template(js))
+        res.append(bad_origin(Origins(ctx).origin(e, fn, CODE), q))
+    r.positive_control(bool(res[0]) and res[1] is None, 'a literal filled from undecoded data is reported, one filled from escape_byte_string is not')
     return r
